@@ -26,11 +26,64 @@ class Oracle:
     """Answers the leaves of an interpreted region from an atom valuation.  Calls are matched by
     template-erased callee name; unknown leaves raise Unknown (-> analysis broken)."""
 
-    def __init__(self, calls=None, params=None, members=None, effects=None):
+    def __init__(self, calls=None, params=None, members=None, effects=None, any_member=False):
         self.calls = calls or {}
         self.params = params or {}
         self.members = members or {}
         self.effects = effects if effects is not None else []
+        # any_member: members the rule does not name evaluate to an opaque object (containers that are only
+        # handed to begin()/end(), never branched on: branching on an opaque value is Unknown)
+        self.any_member = any_member
+
+    def descend_into(self, tu, depth=3):
+        """let calls of library functions the rule does not name be interpreted from their own bodies (a helper the
+        code was factored into); virtual calls only when the unit knows exactly one implementation"""
+        self.tu = tu
+        self.depth = depth
+        return self
+
+    def _inline(self, t, it):
+        tu = getattr(self, "tu", None)
+        if tu is None or getattr(self, "depth", 0) <= 0 or t[0] not in ("call", "mcall", "opcall"):
+            return None
+        cid = t[1]
+        callee = tu.fns.get(cid)
+        if callee is None:
+            return None
+        if t[0] == "mcall" and t[5]:
+            tg = [x for x in tu.overriders(cid) if tu.fns[x].has_body]
+            if len(tg) != 1:
+                return None
+            callee = tu.fns[tg[0]]
+        if not callee.has_body or not callee.is_lib or callee.rec.get("coro"):
+            return None
+        args = _args(t)
+        this_v = None
+        if t[0] == "mcall" or (t[0] == "opcall" and callee.kind in ("method",)):
+            recv = args[0]
+            args = args[1:]
+            try:
+                this_v = it.ev(recv)
+            except Unknown:
+                this_v = ("obj", "receiver")
+            if recv == ["this"] or (isinstance(this_v, tuple) and this_v[:2] == ("obj", "this")):
+                this_v = ("obj", "this")
+        vals = {}
+        for i, a in enumerate(args):
+            try:
+                vals[i] = it.ev(a)
+            except Unknown:
+                pass             # an argument the callee may never look at
+        child = Oracle(self.calls, vals, self.members, self.effects, self.any_member)
+        child.tu = tu
+        child.depth = self.depth - 1
+        child.this_v = this_v
+        sub = Interp(callee, child, effects=it.effects)
+        kind, val = sub.run()
+        it.steps += sub.steps
+        if kind == "throw":
+            raise Unknown("helper %s throws" % callee.qe)
+        return (True, val)
 
     def __call__(self, kind, t, it):
         if kind == "call":
@@ -38,6 +91,9 @@ class Oracle:
             if n in self.calls:
                 h = self.calls[n]
                 return h(t, it) if callable(h) else h
+            r = self._inline(t, it)
+            if r is not None:
+                return r[1]
             raise Unknown("call of " + str(n))
         if kind == "param":
             if t[1] in self.params:
@@ -47,9 +103,11 @@ class Oracle:
             f = erase(t[1])
             if f in self.members:
                 return self.members[f]
+            if self.any_member:
+                return ("opaque", f)
             raise Unknown("member " + f)
         if kind == "this":
-            return ("obj", "this")
+            return getattr(self, "this_v", None) or ("obj", "this")
         if kind == "load":
             if t[0] == "member":
                 f = erase(t[1])
@@ -59,11 +117,166 @@ class Oracle:
         raise Unknown(kind + " " + str(t)[:80])
 
 
+def _args(t):
+    """argument trees of a call-like tree, receiver first"""
+    if t[0] == "opcall":
+        return list(t[4])
+    if t[0] == "mcall":
+        return [t[3]] + list(t[4])
+    if t[0] == "call":
+        return list(t[3])
+    return []
+
+
+def _pos(v):
+    """position name of an abstract iterator value"""
+    return v[1] if isinstance(v, tuple) and len(v) == 2 and v[0] == "iter" else None
+
+
+def _it_deref(t, it):
+    v = it.ev(_args(t)[0])
+    p = _pos(v)
+    if p is None:
+        return ("elem", "cur")
+    if p == "end":
+        raise Unknown("dereference of the end iterator")
+    return ("elem", p if p in ("cur", "next") else "cur")
+
+
+def _it_arrow(t, it):
+    return ("ptr", _it_deref(t, it))
+
+
+def _it_inc(t, it):
+    a = _args(t)[0]
+    v = it.ev(a)
+    if _pos(v) == "end":
+        raise Unknown("increment of the end iterator")
+    try:
+        it.store(it.lval(a), ("iter", "next"))
+    except Unknown:
+        pass
+    return ("iter", "next")
+
+
+def _it_cmp(neg):
+    def h(t, it):
+        a, b = [it.ev(x) for x in _args(t)[:2]]
+        pa, pb = _pos(a), _pos(b)
+        if pa is None or pb is None:
+            raise Unknown("comparison of %r and %r" % (a, b))
+        # plumbing names of a range-for (__begin1 / __end1) stand for "at an element" / "at the end"
+        na = "end" if pa == "end" or pa.startswith("__end") else "elem"
+        nb = "end" if pb == "end" or pb.startswith("__end") else "elem"
+        if na == "elem" and nb == "elem" and pa != pb:
+            raise Unknown("comparison of two element positions")
+        eq = (na == nb)
+        return (not eq) if neg else eq
+    return h
+
+
+def _minmax(f):
+    def h(t, it):
+        a, b = [it.ev(x) for x in _args(t)[:2]]
+        if not all(isinstance(x, int) and not isinstance(x, bool) for x in (a, b)):
+            raise Unknown("std::min/max of %r, %r" % (a, b))
+        return f(a, b)
+    return h
+
+
+def _it_assign(t, it):
+    a = _args(t)
+    v = it.ev(a[1])
+    it.store(it.lval(a[0]), v)
+    return v
+
+
 ITER = {
-    "trompeloeil::list::iterator::operator*": lambda t, it: ("elem", "cur"),
-    "trompeloeil::list::iterator::operator->": lambda t, it: ("ptr", ("elem", "cur")),
-    "trompeloeil::list::iterator::operator++": lambda t, it: ("iter", "next"),
+    "trompeloeil::list::iterator::operator=": _it_assign,
+    "trompeloeil::list::iterator::operator*": _it_deref,
+    "trompeloeil::list::iterator::operator->": _it_arrow,
+    "trompeloeil::list::iterator::operator++": _it_inc,
+    "trompeloeil::operator!=": _it_cmp(True),
+    "trompeloeil::operator==": _it_cmp(False),
+    "trompeloeil::list::end": lambda t, it: ("iter", "end"),
+    "std::max": _minmax(max),
+    "std::min": _minmax(min),
 }
+
+
+class LoopModel:
+    """One-iteration abstraction of a loop over a sequence, whatever its spelling: range-for, an explicit
+    iterator loop (`for`/`while`, conditions merged with `&&` or tested in the body) or an index loop.
+
+    The iteration is entered at the loop's entry block with the moving iterator either positioned AT an element
+    (whose properties the rule's oracle answers as atoms) or AT THE END.  step() interprets until control comes
+    back to the entry (`('stop', entry)`: go on to the next element), the function returns (inside the loop or
+    in the code after it: `('return', v)`), or throws."""
+
+    def __init__(self, fn, loop):
+        self.fn = fn
+        self.loop = loop
+        self.entry = loop["entry"]
+        self.members = set(loop["body"]) | {loop["head"], loop["entry"]}
+        self.moving = set()
+        self.fixed_end = set()
+        self.index = None            # (var, bound tree)
+        decls = {e["var"]: e for b, e in fn.events() if e["e"] == "decl"}
+        touched = set()
+        for bid in self.members:
+            for e in fn.blocks[bid]["ev"]:
+                if e["e"] == "incdec" and e.get("x", [None])[0] == "var":
+                    touched.add(e["x"][1])
+                if e["e"] == "call" and e.get("op") in ("++", "--", "=") and (e.get("recv") or [None])[0] == "var":
+                    touched.add(e["recv"][1])
+                if e["e"] == "assign" and e.get("lhs", [None])[0] == "var":
+                    touched.add(e["lhs"][1])
+        for v, d in decls.items():
+            t = d.get("type") or ""
+            n = d.get("name") or ""
+            if "iterator" in t or n.startswith("__begin") or n.startswith("__end"):
+                if n.startswith("__end"):
+                    self.fixed_end.add(v)
+                elif v in touched or n.startswith("__begin"):
+                    self.moving.add(v)
+                else:
+                    self.fixed_end.add(v)
+        # index loop: the entry condition compares an integral local that the loop advances with a bound
+        c = cfg.cond_of(fn, self.entry)
+        if not self.moving and isinstance(c, list) and c[:1] == ["b"] and c[1] in ("<", "!=") and c[2][:1] == ["var"] \
+                and c[2][1] in touched:
+            self.index = (c[2][1], c[3])
+
+    def env_for(self, at, interp):
+        env = {}
+        for v in self.moving:
+            env[v] = ("iter", "cur" if at == "elem" else "end")
+        for v in self.fixed_end:
+            env[v] = ("iter", "end")
+        for b, e in self.fn.events():
+            if e["e"] == "decl" and (e.get("name") or "").startswith("__range"):
+                env[e["var"]] = ("range", e["name"])
+        if self.index is not None:
+            bound = interp.ev(self.index[1])
+            env[self.index[0]] = 0 if at == "elem" else bound
+        return env
+
+    def step(self, oracle, env=None, at="elem", max_steps=400):
+        it = Interp(self.fn, oracle)
+        it.env.update(self.env_for(at, it))
+        it.env.update(env or {})
+        res = it.run(start=self.entry, stop_blocks={self.entry}, max_steps=max_steps)
+        return res, it
+
+
+def iter_calls(at="elem", extra=None):
+    """the ITER table plus the list-level queries whose answer depends on where the iteration stands"""
+    d = dict(ITER)
+    d["trompeloeil::list::begin"] = lambda t, it: ("iter", "cur" if at == "elem" else "end")
+    d["trompeloeil::list::empty"] = (at != "elem")
+    if extra:
+        d.update(extra)
+    return d
 
 
 
